@@ -169,7 +169,14 @@ func RuleK1(r *Report, c *Codec) {
 	for _, s := range c.KS.Expected {
 		want[s] = true
 	}
-	r.Check(keysOf(have) == keysOf(want), "K1", "types:signature-set", "", keysOf(have), "derived encoder signatures {"+keysOf(have)+"} differ from the protocol's {"+keysOf(want)+"}")
+	missing := []string{}
+	for s := range want {
+		if !have[s] {
+			missing = append(missing, s)
+		}
+	}
+	sort.Strings(missing)
+	r.Check(len(missing) == 0, "K1", "types:signature-set", "", keysOf(have), "protocol encodings {"+strings.Join(missing, ",")+"} are no longer produced by any field type (derived: {"+keysOf(have)+"})")
 }
 
 // K14: a "does it fit" guard may reject a field only if it extends beyond the buffer: a field ending on the last byte fits.
